@@ -83,6 +83,26 @@ def drive_fx(args):
         # of values by max(value) (e^tol - 1): the absolute tolerance handed to the judge is scaled accordingly
         scale = 1.0 if kind == 'real' else 1.01 * max(max(v) for v in a['cert'].values()) / AG.FXS
         runs.append(one_run(lambda: AG.build_fgg_fx(a, kind, dtype)[0], kind, 'fx', method, tol, kmax, dtype, proj, max(scale, 1.0) if kind == 'log' else 1.0))
+    # the same iteration at another MAGNITUDE (Log semiring): in a globally linear grammar every constant rule gets a scalar
+    # factor exp(-280); all log-values are then shifted by exactly -280 and are judged after shifting back.  A stopping
+    # rule that is relative to the size of the values stops far too early here.
+    am = AG.with_constant_marker(a) if linear else None
+    if am is not None:
+        SH = 280.0
+
+        def build_shifted(dtype):
+            g = AG.build_fgg_fx(am, 'log', dtype)[0]
+            g.factors['lam'].weights = torch.tensor(-SH, dtype=dtype)
+            return g
+        scale = max(1.0, 1.01 * max(max(v) for v in a['cert'].values()) / AG.FXS)
+        projs = lambda t: [interval_fx(math.exp(float(x) + SH)) if float(x) + SH < 30 else [INF, INF] for x in t.reshape(-1).tolist()]
+        for method in ('fixed-point', 'newton', 'linear'):
+            tol = TOLS[(i + len(runs)) % 3] if tier == 'quick' else None
+            for tl in ([tol] if tol else TOLS):
+                r = one_run(lambda: build_shifted(torch.float64), 'log', 'fx', method, tl, 1000, torch.float64, projs, scale)
+                r['tag'] = r['tag'] + ['shifted_by_-280']
+                r['res'].pop('lam', None)
+                runs.append(r)
     return {'ag': {k: a[k] for k in ('nls', 'els', 'start', 'rules', 'wfx', 'cert')}, 'runs': runs, 'q_hint': a['q_hint'], 'patterned': a['patterned_eq']}
 
 
